@@ -24,7 +24,11 @@ META = {
         "whose iterator is exhausted/closed/failed/collected, == 0 for caller-owned data until the caller "
         "finalizes; no _render_ ever saw finalized data; closed iterators stop and reject control operations. "
         "Non-trivial = history with a fault, an abandonment or caller-owned data; distinct by (renderable kind, "
-        "op-kind sequence, fault kind)."
+        "op-kind sequence, fault kind). Op it_reenter: a frame's render calls close() on its own iterator (rejected, "
+        "changes nothing). Clause families: a fresh class hierarchy per case (Parent without data finalizer, Child "
+        "defining one, GrandChild inheriting, Sibling without) used in generated order via render/str/draw/iterate; "
+        "every data object finalized once, its class's finalizer ran exactly once; non-trivial = a finalizer-less "
+        "and a finalizing class both used."
     ),
     "assumptions": [
         "'finalized when the operation fails' is checked as soon as the failing call has raised (the harness "
@@ -67,7 +71,7 @@ def cases(draw):
     for _ in range(draw(st.integers(1, 14))):
         k = draw(st.sampled_from(["render", "str", "draw", "draw", "new_iter", "new_iter", "it_next", "it_next",
                                   "it_nexts", "it_seek", "it_close", "it_drop", "it_drop", "data_finalize", "fault", "it_ctl",
-                                  "resize", "bad_args"]))
+                                  "resize", "bad_args", "it_reenter"]))
         o = {"op": k}
         if k in ("render", "draw", "new_iter"):
             o["pad"] = draw(iterlab.pad_spec())
@@ -82,7 +86,7 @@ def cases(draw):
             o["ctor"] = draw(st.sampled_from(["init", "iter", "from_data", "from_data_keep"]))
             o["loops"] = draw(st.sampled_from([1, 2, -1]))
             o["cache"] = draw(st.sampled_from([False, True]))
-        if k in ("it_next", "it_nexts", "it_seek", "it_close", "it_drop", "data_finalize", "it_ctl"):
+        if k in ("it_next", "it_nexts", "it_seek", "it_close", "it_drop", "data_finalize", "it_ctl", "it_reenter"):
             o["i"] = draw(st.integers(0, 3))
         if k == "it_nexts":
             o["k"] = draw(st.integers(2, 7))
@@ -318,10 +322,21 @@ def check_history(case, rec):
             its.append(ItState(it, r.datas[n0], owned))
             it = data = None  # the harness keeps no reference besides ItState
             trace.append(("new_iter", ctor))
-        elif k in ("it_next", "it_nexts"):
+        elif k in ("it_next", "it_nexts", "it_reenter"):
             if not its:
                 continue
             st_ = its[o["i"] % len(its)]
+            if k == "it_reenter":
+                # the frame's render itself (a callback it runs) tries to close the iterator: not possible while the frame
+                # is being produced -- that close() fails and must change nothing
+                def reenter(st_=st_):
+                    try:
+                        st_.it.close()
+                    except ValueError:
+                        flags.add("reentrant_close_rejected")
+                        trace.append(("close_from_render_rejected",))
+
+                r.hook_at = (r.renders + 1, reenter)
             for _ in range(o.get("k", 1)):
                 try:
                     next(st_.it)
@@ -342,6 +357,7 @@ def check_history(case, rec):
                     flags.add("next_failed")
                 if res == "KeyboardInterrupt":
                     break
+            r.hook_at = None
         elif k == "it_seek":
             if not its:
                 continue
@@ -445,7 +461,108 @@ def check_history(case, rec):
         rec.nontriv([kind, kinds, sorted(flags)])
 
 
+# ---------------------------------------------------------------------------------------------- class families
+
+@st.composite
+def family_cases(draw):
+    return {"ops": draw(st.lists(st.tuples(st.integers(0, 3), st.sampled_from(["render", "str", "draw", "iterate", "iter_close"])),
+                                 min_size=1, max_size=7))}
+
+
+def check_families(case, rec):
+    """A fresh family of render classes per case -- Parent (no finalizer of its own), Child(Parent) defining one,
+    GrandChild(Child) inheriting it, Sibling(Parent) without -- is used in a generated order through the public entry
+    points.  Every render data object is finalized exactly once when its operation is over, and the finalizer its class
+    defines or inherits has run exactly once on it, whichever other class of the family was used before."""
+    import io
+
+    from term_image.geometry import Size
+    from term_image.render import RenderIterator
+    from term_image.renderable import Frame, Renderable
+
+    env.reset()
+    env.apply(cols=20, rows=10)
+    datas = []  # [class index, data]
+    ran = []  # (finalizer owner, id(data))
+
+    class Parent(Renderable):
+        idx = 0
+
+        def __init__(self, n=1):
+            super().__init__(n, 40 if n > 1 else 1)
+
+        def _get_render_size_(self):
+            return Size(2, 1)
+
+        def _get_render_data_(self, *, iteration):
+            d = super()._get_render_data_(iteration=iteration)
+            datas.append([type(self).idx, d])
+            return d
+
+        def _render_(self, render_data, render_args):
+            d = render_data[Renderable]
+            return Frame(d.frame_offset, d.duration if self.animated else 0, d.size, "ab")
+
+    class Child(Parent):
+        idx = 1
+
+        @classmethod
+        def _finalize_render_data_(cls, render_data):
+            ran.append(id(render_data))
+            super()._finalize_render_data_(render_data)
+
+    class GrandChild(Child):
+        idx = 2
+
+    class Sibling(Parent):
+        idx = 3
+
+    classes = [Parent, Child, GrandChild, Sibling]
+    order = []
+    for ci, api in case["ops"]:
+        cls = classes[ci]
+        order.append((cls.__name__, api))
+        n0 = len(datas)
+        try:
+            if api == "render":
+                cls().render()
+            elif api == "str":
+                str(cls())
+            elif api == "draw":
+                real, sys.stdout = sys.stdout, io.StringIO()
+                try:
+                    cls().draw()
+                finally:
+                    sys.stdout = real
+            elif api == "iterate":
+                for _ in RenderIterator(cls(3), loops=1):
+                    pass
+            else:
+                it = RenderIterator(cls(3), loops=2)
+                next(it)
+                it.close()
+        except Exception as e:
+            raise Violation(f"{cls.__name__}: {api} raised {type(e).__name__}: {e} (order {order})", {"kind": "exception"})
+        for ci2, d in datas[n0:]:
+            if not d.finalized:
+                raise Violation(f"render data of a {classes[ci2].__name__} {api} is not finalized afterwards (order {order})",
+                                {"kind": "not_finalized", "api": api})
+            want = 1 if ci2 in (1, 2) else 0
+            if ran.count(id(d)) != want:
+                raise Violation(f"the render-data finalizer {classes[ci2].__name__} "
+                                f"{'defines' if ci2 == 1 else 'inherits' if ci2 == 2 else 'does not have'} ran {ran.count(id(d))}x on the "
+                                f"data of its {api} (expected {want}) after using the classes in the order {order}",
+                                {"kind": "finalizer_runs", "api": api, "cls": ci2})
+    first_plain = next((i for i, (ci, _) in enumerate(case["ops"]) if ci in (0, 3)), None)
+    first_fin = next((i for i, (ci, _) in enumerate(case["ops"]) if ci in (1, 2)), None)
+    if first_plain is not None and first_fin is not None:
+        rec.label("plain_before_finalizing" if first_plain < first_fin else "finalizing_before_plain")
+        rec.nontriv(order)
+
+
 CLAUSES = [
     Clause("history", check_history, cases, budget={"quick": 2000, "thorough": 50000},
            floors={"fault": 0.12, "abandoned": 0.03, "caller_owned": 0.02}),
+    Clause("families", check_families, family_cases, budget={"quick": 400, "thorough": 4000},
+           floors={"plain_before_finalizing": 0.15}),
 ]
